@@ -66,7 +66,7 @@ REQUIRED = ["op:gbk:dump-compare", "op:gbk:fixed-point", "op:gbk:write-repeatabl
             "class:sideloaded-protocluster", "class:sideloaded-subregion", "class:subregion", "class:pfam",
             "class:asdomain", "class:cds-motif", "class:prepeptide", "class:prepeptide-leader-core-tail",
             "class:module", "class:module-multi-cds", "class:region>=2-candidates", "class:t2pks",
-            "class:header-reference"]
+            "class:header-reference", "class:external-cds-motif"]
 
 
 # --------------------------------------------------------------------------------------------------
@@ -133,9 +133,17 @@ def _k3(clause, facts):
         return parts[0] in ("feature", "feature-set") and parts[1] in ("cand_cluster", "region")
     # without wrapping the other code path of connect_locations still marks the strand differently when members
     # with and without strand (sideloaded) are mixed: same bases, other strand mark
-    return (facts.get("linear_candidate_differs_in_strand_mark_only") is True
-            and parts[:2] == ["area", "candidates"] and parts[2] in ("core_location", "location")
-            and intervals(facts.get("original", "")) == intervals(facts.get("reread", "")))
+    if facts.get("linear_candidate_differs_in_strand_mark_only") is not True:
+        return False
+    if parts[0] == "feature-set":
+        return (parts[1] in ("cand_cluster", "region") and facts.get("in_original") and facts.get("in_reread")
+                and facts.get("same_bases") is True and facts.get("parts_original") == facts.get("parts_reread"))
+    # (long values arrive shortened: compare what is there)
+    first, second = (str(facts.get(key, key)).replace("(+)", "")[:120] for key in ("original", "reread"))
+    same_but_marks = first == second
+    return (parts[0] == "area" and same_but_marks and facts.get("differences") == 1
+            and parts[1:] in (["candidates", "core_location"], ["candidates", "location"], ["regions", "location"],
+                              ["regions", "candidate_members"]))
 
 
 @findings.classifier("c10_prepeptide_sequence_wrapped_with_space")
@@ -669,10 +677,17 @@ def crossing_feature_inside_area(dump: dict) -> bool:
     for entry in dump["features"]:
         if entry["type"] in AREA_TYPES or not entry["location"].startswith("join{"):
             continue
-        mine = intervals(entry["location"])
-        if len(mine) > 1 and mine[0][0] == 0 and mine[-1][1] == dump["length"] and any(_contains(a, mine) for a in areas):
+        if crosses_origin(entry["location"]) and any(_contains(a, intervals(entry["location"])) for a in areas):
             return True
     return False
+
+
+def crosses_origin(location: str) -> bool:
+    """ the parts of a compound location, in reading order, step back over the origin (in an exon or an intron) """
+    starts = [int(s) for s, _ in _RANGE.findall(location)]
+    if "(-)" in location:
+        starts.reverse()
+    return any(b < a for a, b in zip(starts, starts[1:]))
 
 
 # --------------------------------------------------------------------------------------------------
@@ -688,6 +703,7 @@ def count_classes(ctx, facts: dict, spec: dict):
                       ("sideloaded-protocluster", "sideloaded_protoclusters"),
                       ("sideloaded-subregion", "sideloaded_subregions"), ("subregion", "subregions"),
                       ("pfam", "pfams"), ("asdomain", "asdomains"), ("cds-motif", "motifs"),
+                      ("external-cds-motif", "external_motifs"),
                       ("prepeptide", "prepeptides"), ("module", "modules"), ("module-multi-cds", "multi_cds_modules")):
         if facts[key]:
             ctx.count("class:" + name)
